@@ -30,6 +30,7 @@ SPACE = {
 }
 BOUNDS = {"quick": {"per": 4}, "thorough": {"per": 12}}
 ASSUMPTIONS = [
+    "a quarter of the cases give the inputs their own (mutually different) coordinate labels on the signature dimensions; labels are not data and must not influence whether or with what the function is called",
     "every input carries every axis boundary_width names (the statement's restriction): widths are given only for dummy axes present in all inputs",
     "the trimmer takes output cell i from input cell i modulo the received length, sums over core axes the output does not have - any function 'that trims what was padded' is an instance of cutting by index",
     "loop (non-core) dimensions are compared as a set in front of the core dimensions",
@@ -284,6 +285,11 @@ def run_case(rec, si, bi, sched, seed, g=None):
     if (si + sched) % 5 == 4 and fills_integral:
         # the same (integral) values held in an integer dtype
         das = [d.astype(np.int64) for d in das]
+    if (si + sched) % 4 == 1:
+        # inputs that carry their own labels on the signature dimensions, different from input to input (another
+        # convention, another precision): the function is still called with plain arrays, labels play no role
+        das = [d.assign_coords({dim: (dim, (np.arange(d.sizes[dim]) * (i + 1.0) - 0.25 * i).astype(np.float32 if i % 2 else np.float64))
+                                for dim in d.dims if dim != "t"}) for i, d in enumerate(das)]
     bw_real = {binding[n_]: w for n_, w in bw_dummy.items()}
     loop_dims, arranged, out_lengths = reference(sig, binding, das, bw_real, rs)
     nontriv = any(w != (0, 0) for w in bw_dummy.values()) or len(ins) >= 2
